@@ -15,7 +15,7 @@ import (
 func init() {
 	register(&propDef{
 		id: "C19", level: "other", perCfg: true,
-		explain: "Necessary structural conditions of C19, each decided for all paths of the current source. A1 error discipline: no error returned by a repo function is dropped on the bind/listen/connect paths, and in Bind every path to the listen call has established the ':' prefix and crossed protocol == \"unix\" or protocol == \"tcp\" (so never after a parser error). A2 whitelist: in the service's address parser (found by role: the Service method that splits at ':'), every path to a success return crosses `len(SplitN(addr,\":\",2)) == 2`, crosses `proto == \"unix\"` or `proto == \"tcp\"` (and no other constant), and after the unix edge crosses a non-emptiness test of the very value that is finally stored as the address. A3 no unguarded index: every constant-index Index/IndexAddr on the address paths carries a dominating length fact (or is element 0 of a strings.SplitN(_,_,n>=1) result). A4 both sides parse alike: protocol and address terms computed by the parser and by NewConnection are the same functions of the input string (text before the first ':'; rest cut at the first ';') and are exactly the values that reach the listen call in Bind resp. DialContext in NewConnection (any write between parsing and listening shows up there). A5 socket-file lifecycle: os.Remove and SetUnlinkOnClose(true) happen exactly under proto==unix and not-abstract, before resp. after a successful listen, and are present on every such path. A6 re-bindable: a failing listen stores no listener; Bind refuses before looking at the address only because serving is in progress (no other Service state can wedge it). Functions are analysed in their inlined views (DESIGN 9.2): repository helpers are part of the function that calls them, so it does not matter whether a step is written out or factored into a helper. A6 also: a failing Bind does not leave the service marked as serving. A2's emptiness test must be made on the value finally stored: library facts stated by the checker (strings.SplitN with constant n != 0 and strings.Split never return nil) fold the corresponding branches, so the un-cut rest is not a final value of the address.",
+		explain: "Necessary structural conditions of C19, each decided for all paths of the current source. A1 error discipline: no error returned by a repo function is dropped on the bind/listen/connect paths, and in Bind every path to the listen call has established the ':' prefix and crossed protocol == \"unix\" or protocol == \"tcp\" (so never after a parser error). A2 whitelist: in the service's address parser (found by role: the Service method that splits at ':'), every path to a success return crosses `len(SplitN(addr,\":\",2)) == 2`, crosses `proto == \"unix\"` or `proto == \"tcp\"` (and no other constant), and after the unix edge crosses a non-emptiness test of the very value that is finally stored as the address. A3 no unguarded index: every constant-index Index/IndexAddr on the address paths carries a dominating length fact (or is element 0 of a strings.SplitN(_,_,n>=1) result). A4 both sides parse alike: protocol and address terms computed by the parser and by NewConnection are the same functions of the input string (text before the first ':'; rest cut at the first ';') and are exactly the values that reach the listen call in Bind resp. DialContext in NewConnection (any write between parsing and listening shows up there). A5 socket-file lifecycle: os.Remove and SetUnlinkOnClose(true) happen exactly under proto==unix and not-abstract, before resp. after a successful listen, and are present on every such path. A6 re-bindable: a failing listen stores no listener; Bind refuses before looking at the address only because serving is in progress (no other Service state can wedge it). Functions are analysed in their inlined views (DESIGN 9.2): repository helpers are part of the function that calls them, so it does not matter whether a step is written out or factored into a helper. A6 also: a failing Bind does not leave the service marked as serving. A2's emptiness test must be made on the value finally stored: library facts stated by the checker (strings.SplitN with constant n != 0 and strings.Split never return nil) fold the corresponding branches, so the un-cut rest is not a final value of the address. A7 the listener held before is not closed after the new one was created (for a unix path bound again, unlink-on-close of the old listener would remove the socket file the new one has just created).",
 		notDec:  "What the operating system accepts as an address; '@' selecting the abstract namespace (Go net contract); that unlink-on-close really removes the file (net.UnixListener contract).",
 		trusted: []string{"strings.SplitN(s, sep, n) with n >= 1 returns a non-nil slice with between 1 and n elements", "net.UnixListener.SetUnlinkOnClose(true) makes Close remove the socket file"},
 		run:     runC19,
